@@ -1,6 +1,6 @@
 From FJ Require Import Lib.Base.
 (* C14 - every assembly failure is a specific library diagnostic (statements; proofs in Proofs/AsmErrorsProps.v,
-   model in Model/AsmErrors.v = /repo after the fix commits for F7, F8, F9, N1, N2, N3, N4 (523f875, d8bb7f7), N5).
+   model in Model/AsmErrors.v = /repo after the fix commits for F7, F8, F9, N1, N2, N3, N4 (523f875, d8bb7f7), N5, F10 (0a31844).
 
    `assemble_model cfg t` is the outcome of `assemble` on the parse tree t: a verdict (success, a specific library
    exception LibError k, the catch-all "Unknown exception ... please report this bug" with the raw exception that caused
@@ -12,23 +12,22 @@ Local Open Scope string_scope.
 Local Open Scope Z_scope.
 
 (* The outcome is success or a specific library exception - never the catch-all, never a hang - for every tree the parser
-   can return (has_main: the dictionary holds the main macro ("", 0)) that stays clear of the two classes of defects
-   still open in /repo (one boolean guard each, each refuted below):
-     counts_materialisable   F9b/N6  a pad of more ops than memory can hold, a rep count or power that never finishes
-     expr_depth_ok           F10     an expression tree deeper than the recursive Expr methods survive *)
+   can return (has_main: the dictionary holds the main macro ("", 0)) that stays clear of the one class of defects still
+   open in /repo (refuted below):
+     counts_materialisable   F9b/N6  a pad of more ops than memory can hold, a rep count or power that never finishes *)
 Theorem C14_specific : forall cfg t, has_main t = true ->
-  counts_materialisable cfg t = true -> expr_depth_ok cfg t = true ->
+  counts_materialisable cfg t = true ->
   specific (assemble_model cfg t) = true.
 Proof. exact specific_under_guards. Qed.
 Print Assumptions C14_specific.
 
-(* Without any guard: whatever reaches the catch-all is one of exactly two raw exceptions (so no struct.error from the
+(* Without any guard: the only raw exception that reaches the catch-all is MemoryError (so no struct.error from the
    writer, no IndexError from the wflip chain, no KeyError from a dictionary, no TypeError/ZeroDivisionError from an
-   operator, no ValueError from a handler that builds a message). *)
+   operator, no ValueError from a handler that builds a message, and - since 0a31844 - no RecursionError). *)
 Theorem C14_catch_all_classes : forall cfg t, has_main t = true ->
   match o_verdict (assemble_model cfg t) with
   | VOk | VLib _ | VHang => True
-  | VCatchAll x => x = RecursionError \/ x = MemoryError
+  | VCatchAll x => x = MemoryError
   end.
 Proof. exact verdict_cases. Qed.
 Print Assumptions C14_catch_all_classes.
@@ -63,10 +62,14 @@ Example C14_hang_refuted :
     [(main_macro_name, mkmacro [] [] [SRepCall (shl 1 40) "i" "m" [] (P 4)] "" (P 1));
      (("m", 0%N), mkmacro [] [] [SFlipJump (EInt 0) nxt (P 2)] "" (P 1))]) = VHang.
 Proof. vm_compute. reflexivity. Qed.
-(* F10   `;x+x+...+x` (600 terms)  `x:` *)
-Example C14_F10_refuted :
-  o_verdict (assemble_model (cfg0 64 3) (prog [SFlipJump (EInt 0) (sum_x 599) (P 1); SLabel "x" (P 2)])) = VCatchAll RecursionError.
-Proof. vm_compute. reflexivity. Qed.
+(* F10   `;x+x+...+x` (600 terms) `x:`, and the same tree in a macro body (walked at parse time)  ->  FlipJumpAssemblerException
+         "The source nests too deeply for python's recursion limit ..." (0a31844), nothing written *)
+Example C14_F10_fixed :
+  assemble_model (cfg0 64 3) (prog [SFlipJump (EInt 0) (sum_x 599) (P 1); SLabel "x" (P 2)]) = mkout (VLib KTooDeep) NoFile /\
+  assemble_model (cfg0 64 0)
+    [(main_macro_name, mkmacro [] [] [SMacroCall "m" [EInt 1] (P 4)] "" (P 1));
+     (("m", 1%N), mkmacro ["x"] [] [SFlipJump (EInt 0) (sum_x 599) (P 2)] "" (P 1))] = mkout (VLib KTooDeep) NoFile.
+Proof. vm_compute. split; reflexivity. Qed.
 
 (* fixed findings: the old witnesses are now specific library errors, and no file is touched *)
 (* F7    `;1/0`  ->  FlipJumpExprException "bad math operation" *)
@@ -133,13 +136,13 @@ Definition sample : macro_dict :=
 
 Example C14_guards_satisfiable :
   let c := cfg0 64 3 in
-  (has_main sample && counts_materialisable c sample && expr_depth_ok c sample)%bool = true
+  (has_main sample && counts_materialisable c sample)%bool = true
   /\ assemble_model c sample = mkout VOk CompleteFile.
 Proof. vm_compute. split; reflexivity. Qed.
 
 (* and on a program that fails: an undefined macro is a specific error under the same guards *)
 Example C14_guards_satisfiable_on_failure :
   let c := cfg0 32 1 in let t := prog [SMacroCall "nope" [EInt 1] (P 1)] in
-  (has_main t && counts_materialisable c t && expr_depth_ok c t)%bool = true
+  (has_main t && counts_materialisable c t)%bool = true
   /\ assemble_model c t = mkout (VLib KMacroUndefined) NoFile.
 Proof. vm_compute. split; reflexivity. Qed.
